@@ -70,7 +70,7 @@ def parse_address(text: str) -> Tuple[str, int]:
         r'\)',
         text)
 
-    if match:
+    if match and all(int(group) <= 255 for group in match.groups()):
         return (
             '{0}.{1}.{2}.{3}'.format(int(match.group(1)),
                                      int(match.group(2)),
